@@ -902,7 +902,10 @@ void Exec::release_all() {
 // After full release: the live set must be exactly what the library itself still owns, i.e. what is
 // reachable from the built-in crystal collection (names and atom arrays of inserted crystals, and a
 // heap-allocated entry table if the library replaced the static one).
-void final_leak_check(std::vector<Exec*>& execs) {
+// scope: C04 is about every block; C14 ("releasing the array releases everything") about blocks allocated by
+// crystal-collection ops; C16 and C17 do not speak about retained memory at all (a cache that keeps a block is
+// C04's business), so their engines only log what is left.
+void final_leak_check(std::vector<Exec*>& execs, int scope) {
   for (Exec* ex : execs)
     if (ex->stopped) { logf("LEAKCHECK skipped (run stopped at op %d)", SH->stopped_op); return; }
   std::vector<std::pair<void*, AllocInfo>> live;
@@ -918,6 +921,13 @@ void final_leak_check(std::vector<Exec*>& execs) {
   for (auto& kv : live) {
     if (std::find(owned.begin(), owned.end(), kv.first) != owned.end()) continue;
     const AllocInfo& ai = kv.second;
+    if (scope == LEAKS_NONE) { logf("NOTE block o%u (%u bytes) still live at the end of the run", ai.id, ai.size); continue; }
+    if (scope == LEAKS_CRYSTAL_OPS) {
+      int k = ai.op_kind;
+      bool crystal = k == OK_CA_INIT || k == OK_CA_ADD || k == OK_CA_READ || k == OK_CA_GET || k == OK_CA_LIST || k == OK_CA_FILL || k == OK_CR_COPY ||
+                     k == OK_CR_MUT || k == OK_CR_MATH || k == OK_FREE;
+      if (!crystal) { logf("NOTE block o%u from a non-crystal op still live", ai.id); continue; }
+    }
     std::string s0 = site_of_pc(ai.site0), s1 = site_of_pc(ai.site1);
     std::string site = s0;
     if (s0 == "xrl_strdup" || s0 == "xrl_strndup" || s0 == "xrl_malloc" || s0 == "xrl_strdup_vprintf" || s0 == "xrl_error_new_valist" || s0 == "xrl_error_new_literal" || s0 == "xrl_set_error" || s0 == "xrl_set_error_literal") site = s1 + "/" + s0;
